@@ -403,7 +403,24 @@ func qualOrigin(p *Prog, c *Chain, arg ast.Expr) (string, bool) {
 				// the setting in effect is the method's (ctx.Conf…), not the converter's: a method-level
 				// wrapErrorsUsing decides which package the file imports
 				if isFieldSel(cs.Pkg.TypesInfo, argx, modPath+"/config", "Common", "WrapErrorsUsing") {
-					if rid := rootIdent(argx); rid == nil || !isNamed(derefType(cs.Pkg.TypesInfo.TypeOf(rid)), modPath+"/builder", "MethodContext") {
+					fromCtx := false
+					cur := argx
+					for hop := 0; hop < 4 && cur != nil; hop++ {
+						rid := rootIdent(cur)
+						if rid == nil {
+							break
+						}
+						if isNamed(derefType(cs.Pkg.TypesInfo.TypeOf(rid)), modPath+"/builder", "MethodContext") {
+							fromCtx = true
+							break
+						}
+						// a local that names part of the context (`conf := ctx.Conf`)
+						cur = nil
+						if cs.Encl != nil {
+							cur = localDef(cs.Pkg.TypesInfo, cs.Encl.Decl, cs.Pkg.TypesInfo.ObjectOf(rid))
+						}
+					}
+					if !fromCtx {
 						bad = p.PosStr(cs.Call.Pos()) + " (read from " + exprString(argx) + ", not from the method context)"
 					}
 				}
